@@ -166,7 +166,7 @@ func c15(r *Report, s *Sem) {
 			return "K5: the stop routine's wait for the receiver it has just cancelled; the receiver leaves through its own K1/K2 sites", true
 		case fn.Name() == "Close" && strings.Contains(fnName(fn), "inProcessTransport") && bs.kind == "chan send":
 			return "K5: done signal of the in-process transport: buffered(1) and sent at most once (guarded by the closed flag under the mutex)", true
-		case fn == p.handoffFunc(s) && bs.kind == "chan send":
+		case fn == p.handoffFunc(s) && bs.kind == "chan send" && pendingSlotsBuffered(s):
 			return "K5: reply slot of a pending command: created with capacity 1 per request and taken atomically from the table, so at most one send ever targets it (C05.R2, C05.R5)", true
 		case fn.Name() == "newClient" && bs.kind == "chan send":
 			return "K5: hand-off goroutine of an in-process dial (not a context-taking operation's own wait)", true
